@@ -4,6 +4,7 @@ package checks
 import (
 	_ "verif/mc/checks/c09"
 	_ "verif/mc/checks/c11"
+	_ "verif/mc/checks/c12binder"
 	_ "verif/mc/checks/c17"
 	_ "verif/mc/checks/c18"
 	_ "verif/mc/checks/c19"
